@@ -114,6 +114,7 @@ func (g *gen) chooseConf() {
 	g.regexIx = -1
 	g.metaFmt = -1
 	// metadata
+	plainAfterAll := false
 	ext := g.pick(".key.json", ".key.json", ".json", ".key", "", ".keystore", "e")
 	if r.Intn(10) < 4 {
 		g.metaFmt = r.Intn(3)
@@ -122,6 +123,16 @@ func (g *gen) chooseConf() {
 		if r.Intn(2) == 0 {
 			c.Conf.Metadata.Format = g.pick("auto", "auto", "AUTO", "Auto")
 			ext = "." + short
+			switch r.Intn(6) {
+			case 0:
+				ext = short // no dot to strip: the extension itself is the format
+			case 1:
+				ext = ".." + short // only one dot is stripped: ".toml" is no format, the files are plain key files
+				plainAfterAll = true
+			case 2:
+				ext = "." + strings.ToUpper(short) // the format names are case-sensitive: plain key files
+				plainAfterAll = true
+			}
 		} else {
 			c.Conf.Metadata.Format = short
 			ext = g.pick("."+short, ".meta", ".key.json")
@@ -154,6 +165,9 @@ func (g *gen) chooseConf() {
 		}
 	}
 	c.Conf.Filenames.PrimaryExt = ext
+	if plainAfterAll {
+		g.metaFmt = -1 // templates stay configured, unused
+	}
 	if r.Intn(10) < 3 {
 		g.regexIx = r.Intn(len(regexes))
 		c.Conf.Filenames.PrimaryMatchRegex = regexes[g.regexIx]
@@ -243,7 +257,13 @@ func (g *gen) goodName(h string) string {
 func (g *gen) nearMiss(good string, h string) string {
 	r := g.r
 	ext := g.c.Conf.Filenames.PrimaryExt
-	switch r.Intn(14) {
+	switch r.Intn(17) {
+	case 14:
+		return strings.ToUpper(good) // the whole name in upper case
+	case 15:
+		return strings.Replace(good, h, upperHex(h), 1)
+	case 16:
+		return strings.Replace(good, h, mixedHex(h), 1) + g.pick("", " ", ".")
 	case 0:
 		return h // no extension at all
 	case 1:
@@ -402,22 +422,47 @@ func (g *gen) addAddress(i int) {
 	k := g.keys[i]
 	h := hex.EncodeToString(k.addr)
 	pw := g.pws[i]
-	kind := r.Intn(20)
+	kind := r.Intn(25)
 	label := ""
 	keyContent := v3Write(r, k.priv, pw, k.addr)
 	pwContent := pw
 	writePw := true
 	switch {
+	case kind == 20 || kind == 21:
+		// a complete key file that the reader has to refuse for one field
+		v := []int{kfVersion4, kfNoID, kfUnknownKDF, kfBadPRF, kfZeroC, kfDKLen16}[r.Intn(6)]
+		label = fmt.Sprintf("refused-key-file-%d", v)
+		keyContent = v3WriteVariant(r, k.priv, pw, k.addr, v)
+	case kind >= 22:
+		// the password file holds white space only: with trimming the password is empty (and present)
+		label = "blank-password-file"
+		pwContent = []byte(g.pick("\n", " ", " \t\r\n", "\xc2\xa0", "\xe2\x80\x83\n"))
+		keyContent = v3WriteVariant(r, k.priv, []byte{}, k.addr, r.Intn(2))
+		if c.Conf.Filenames.PasswordTrimSpace {
+			label = "good-blank-password-file"
+		} else if r.Bool() {
+			keyContent = v3WriteVariant(r, k.priv, pwContent, k.addr, r.Intn(2)) // the white space is the password
+			label = "good-whitespace-password"
+		}
 	case kind < 9:
 		label = "good"
+		if r.Intn(5) == 0 {
+			keyContent = v3Write(r, k.priv, pw, nil) // no "address" entry
+		} else if r.Intn(4) == 0 {
+			keyContent = v3WriteVariant(r, k.priv, pw, k.addr, kfPbkdf2)
+			label = "good-pbkdf2"
+		}
 	case kind < 11:
 		label = "wrong-key"
 		o := g.keys[(i+1+r.Intn(len(g.keys)-1))%len(g.keys)]
 		claimed := o.addr
-		if r.Bool() {
+		switch r.Intn(4) {
+		case 0, 1:
 			claimed = k.addr // the file even claims to be the requested address
+		case 2:
+			claimed = nil // no "address" entry at all (it is not part of the V3 definition)
 		}
-		keyContent = v3Write(r, o.priv, pw, claimed)
+		keyContent = v3WriteVariant(r, o.priv, pw, claimed, r.Intn(2))
 	case kind < 13:
 		label = "no-password-file"
 		writePw = false
@@ -450,6 +495,11 @@ func (g *gen) addAddress(i int) {
 	case kind < 19:
 		label = "password-with-whitespace"
 		pwContent = wrapWS(r, pw)
+		if !c.Conf.Filenames.PasswordTrimSpace && r.Bool() {
+			// trimming is off: the white space is part of the password
+			keyContent = v3WriteVariant(r, k.priv, pwContent, k.addr, r.Intn(2))
+			label = "good-whitespace-kept"
+		}
 	default:
 		label = "primary-is-directory"
 		if r.Bool() {
@@ -499,6 +549,12 @@ func (g *gen) addAddress(i int) {
 			keyPath = "m/missing.json"
 		case 8:
 			keyPath = primaryPath // the metadata file names itself as the key file
+		}
+		if g.tmplIx == 4 && r.Intn(3) == 0 {
+			variant = 2 // "m/<no value>.json" exists as a file, but is not what the document names
+		}
+		if strings.HasPrefix(label, "no-password-file") && r.Bool() {
+			variant = 1 // the usual way to say "use the default password file": no password entry
 		}
 		// what a template prints for a missing entry is not a file name, even when such a file exists
 		if variant == 1 || variant == 2 || variant == 5 {
@@ -672,7 +728,16 @@ func (g *gen) request(a []byte) *hop {
 		return &hop{Op: "getwf", Addr: a, Want: a}
 	}
 	raw, want := g.fromRaw(a)
-	return &hop{Op: "sign", Raw: raw, Want: want, Tx1559: r.Intn(3) == 0}
+	h := &hop{Op: "sign", Raw: raw, Want: want, Tx1559: r.Intn(3) == 0}
+	if r.Intn(3) == 0 {
+		h.Shape = 1 + r.Intn(7)
+	}
+	if r.Intn(3) == 0 {
+		// EIP-155: V = 2*chain + 35 + parity; EIP-1559: the chain id is the first signed field
+		h.ChainID = []int64{0, 1, 2, 46, 47, 127, 128, 255, 256, 1<<31 - 1, 1 << 31, 1<<32 + 5, 1 << 53, 1<<62 - 18, 1<<62 - 17}[r.Intn(15)]
+		h.Chain0 = h.ChainID == 0
+	}
+	return h
 }
 
 func (g *gen) mutation() []*hop {
@@ -692,7 +757,31 @@ func (g *gen) mutation() []*hop {
 		// the key file sits in m/: find it from the layout order (f<serial>.json); fall back to the primary
 		keyPathOf = func(p string) string { return p }
 	}
-	switch r.Intn(8) {
+	switch r.Intn(11) {
+	case 8: // a directory named like a file of an address nobody has seen yet
+		fresh := r.Bytes(20)
+		return []*hop{{Op: "write", Path: c.Conf.Path + "/" + g.goodName(hex.EncodeToString(fresh)), Kind: kDir}}
+	case 9, 10: // the address nobody had a file for gets one while the wallet is running
+		last := g.known[len(g.known)-1]
+		lh := hex.EncodeToString(last)
+		li := -1
+		for i, k := range g.keys {
+			if string(k.addr) == string(last) {
+				li = i
+			}
+		}
+		if g.metaFmt < 0 && li >= 0 && len(g.primary[lh]) == 0 {
+			p := c.Conf.Path + "/" + g.goodName(lh)
+			g.primary[lh] = append(g.primary[lh], p)
+			content := v3WriteVariant(r, g.keys[li].priv, g.pws[li], last, r.Intn(2))
+			if r.Intn(4) == 0 {
+				o := g.keys[(li+1)%len(g.keys)]
+				content = v3Write(r, o.priv, g.pws[li], last) // ... holding somebody else's key
+			}
+			return []*hop{
+				{Op: "write", Path: g.pwFilePath(last), Kind: kFile, Content: g.pws[li]},
+				{Op: "write", Path: p, Kind: kFile, Content: content}}
+		}
 	case 0: // replace the key file by another address's key (same password)
 		if len(prim) > 0 && g.metaFmt < 0 {
 			o := g.keys[(ki+1)%len(g.keys)]
@@ -778,13 +867,35 @@ func (g *gen) pickAddr() []byte {
 			return good[r.Intn(len(good))]
 		}
 	}
-	if x < 93 {
+	if x < 88 {
 		return g.known[r.Intn(len(g.known)-1)] // the last entry of known has no file
 	}
-	if x < 98 {
+	if x < 92 {
 		return g.known[len(g.known)-1]
 	}
+	if x < 98 {
+		// an address next to one of the directory's: nobody has a file for it, whatever is cached for its neighbour
+		return neighbour(g.known[r.Intn(len(g.known)-1)], r.Intn(5))
+	}
 	return r.Bytes(20)
+}
+
+// neighbour returns an address differing from a in one nibble / bit / byte position
+func neighbour(a []byte, how int) []byte {
+	b := append([]byte{}, a...)
+	switch how {
+	case 0:
+		b[19] ^= 0x01
+	case 1:
+		b[19] ^= 0x10
+	case 2:
+		b[0] ^= 0x10
+	case 3:
+		b[0] ^= 0x01
+	default:
+		b[10] ^= 0x80
+	}
+	return b
 }
 
 func (g *gen) buildHistory() {
@@ -832,6 +943,9 @@ func (g *gen) buildHistory() {
 			if len(ms) > 0 && r.Bool() {
 				c.Hist = append(c.Hist, &hop{Op: "refresh"})
 			}
+			if len(ms) > 0 && r.Intn(3) == 0 {
+				c.Hist = append(c.Hist, &hop{Op: "accounts"})
+			}
 		default:
 			focus = g.pickAddr()
 		}
@@ -853,6 +967,10 @@ func genCase(r *cv.Rand, idx int) *wcase {
 	g.chooseConf()
 	g.buildLayout()
 	g.buildHistory()
+	for _, a := range g.known {
+		g.c.Stress = append(g.c.Stress, a)
+	}
+	g.c.Stress = append(g.c.Stress, neighbour(g.known[0], 0), neighbour(g.known[0], 2), neighbour(g.known[len(g.known)/2], 1))
 	g.c.Label = "generated " + confClass(&g.c.Conf)
 	layoutOfAddr[g.c] = g.layout
 	return g.c
@@ -876,6 +994,10 @@ func corpus() []*wcase {
 		c := &wcase{Label: label, Conf: conf, FS: append([]fsEntry{{Path: "k", Kind: kDir}}, fs...),
 			Hist: append([]*hop{{Op: "refresh"}, {Op: "accounts"}}, hist...)}
 		layoutOfAddr[c] = map[string]string{}
+		for i := range keys {
+			c.Stress = append(c.Stress, keys[i].addr)
+		}
+		c.Stress = append(c.Stress, neighbour(keys[0].addr, 0), neighbour(keys[1].addr, 2))
 		out = append(out, c)
 	}
 	plain := fswallet.Config{Path: "k", Filenames: fswallet.FilenamesConfig{PrimaryExt: ".key.json", PasswordExt: ".pwd"}}
@@ -940,6 +1062,28 @@ func corpus() []*wcase {
 		{Path: "k/" + e + hx(2), Kind: kFile, Content: v3Write(r, keys[2].priv, []byte("a"), keys[2].addr)},
 		{Path: "k/" + hx(1) + ".pwd", Kind: kFile, Content: []byte("a")},
 	}, []*hop{{Op: "sign", Raw: q(0), Want: keys[0].addr}, {Op: "sign", Raw: q(1), Want: keys[1].addr}})
+	// metadata documents: B's document has no password entry (default password file), and is loaded after
+	// A's complete document; nothing of A's document may be remembered
+	for fi, fm := range []string{"json", "yaml", "toml"} {
+		mc := fswallet.Config{Path: "k", DefaultPasswordFile: "d/pw",
+			Filenames: fswallet.FilenamesConfig{PrimaryExt: "." + fm},
+			Metadata:  fswallet.MetadataConfig{Format: "auto", KeyFileProperty: `{{ .keyfile }}`, PasswordFileProperty: `{{ .pwfile }}`}}
+		docA := []string{`{"keyfile":"m/a.json","pwfile":"m/a.pw"}`, "keyfile: m/a.json\npwfile: m/a.pw\n", "keyfile = \"m/a.json\"\npwfile = \"m/a.pw\"\n"}[fi]
+		docB := []string{`{"keyfile":"m/b.json"}`, "keyfile: m/b.json\n", "keyfile = \"m/b.json\"\n"}[fi]
+		docC := []string{`{"pwfile":"m/a.pw"}`, "pwfile: m/a.pw\n", "pwfile = \"m/a.pw\"\n"}[fi]
+		mk("corpus metadata-default-password-"+fm, mc, []fsEntry{
+			{Path: "d", Kind: kDir}, {Path: "d/pw", Kind: kFile, Content: []byte("dflt")}, {Path: "m", Kind: kDir},
+			{Path: "k/" + hx(0) + "." + fm, Kind: kFile, Content: []byte(docA)},
+			{Path: "k/" + hx(1) + "." + fm, Kind: kFile, Content: []byte(docB)},
+			{Path: "k/" + hx(2) + "." + fm, Kind: kFile, Content: []byte(docC)},
+			{Path: "m/a.json", Kind: kFile, Content: v3Write(r, keys[0].priv, []byte("a"), keys[0].addr)},
+			{Path: "m/a.pw", Kind: kFile, Content: []byte("a")},
+			{Path: "m/b.json", Kind: kFile, Content: v3WriteVariant(r, keys[1].priv, []byte("dflt"), keys[1].addr, fi%2)},
+		}, []*hop{
+			{Op: "sign", Raw: q(0), Want: keys[0].addr}, {Op: "sign", Raw: q(1), Want: keys[1].addr},
+			{Op: "getwf", Addr: keys[2].addr, Want: keys[2].addr}, // no key entry: must not use A's key file
+			{Op: "signtd", Addr: keys[0].addr, Want: keys[0].addr}, {Op: "getwf", Addr: keys[1].addr, Want: keys[1].addr}})
+	}
 	// the same address under three spellings: one account, backed by the last file listed
 	mk("corpus spellings", plain, []fsEntry{
 		{Path: "k/" + hx(0) + ".key.json", Kind: kFile, Content: right},
